@@ -377,7 +377,7 @@ def replay(w):
 
 
 def refute(tier, seed, emit):
-    Ps = (1, 2, 3, 4, 8) if tier == 'quick' else range(1, 9)
+    Ps = range(1, 9) if tier == 'quick' else range(1, 14)      # (every phase count of the property's range on every change: 7 is the one that does not divide 360)
     emit.scope('get_next_imf_mask vs the executable masking rule: nphases %s x mask frequency {0.02, 0.11, 0.31} x amplitude {0, 0.3, 2.5} x 2 signals' % list(Ps), exhaustive=True)
     for P in Ps:
         for z in (0.02, 0.11, 0.31):
@@ -418,7 +418,7 @@ def refute(tier, seed, emit):
             emit.violation('mask-frequencies-and-amplitudes-follow-the-documented-rule', w, msg)
         if emit.full:
             return
-    nprocs = [2, 3] if tier == 'quick' else [2, 3, 4, 5, 6, 7, 8]
+    nprocs = [2, 3, 8] if tier == 'quick' else [2, 3, 4, 5, 6, 7, 8]       # (8: more workers than mask phases)
     emit.scope('schedule independence: mask_sift with nprocesses in %s vs 1, 4 option sets (one with non-default imf / envelope / extrema options), byte-identical results' % nprocs)
     for gi, kw in enumerate([dict(max_imfs=3), dict(max_imfs=3, mask_freqs='if', nphases=3), dict(max_imfs=4, mask_amp_mode='ratio_sig', nphases=8),
                              dict(max_imfs=3, extrema_opts={'pad_width': 4, 'parabolic_extrema': True}, envelope_opts={'interp_method': 'pchip'}, imf_opts={'sd_thresh': 0.05})]):
